@@ -52,3 +52,7 @@ PENDING.pop("C07", None)
 _p("C01", "other",
    "Static clauses of the generator/parser round trip. C01.1 is an exact decision: the regular language the number printer can emit (derived from the formatter found in the generator; CPython float-repr language) is included in the lexer's NUMBER/INT token languages (automata built from the token regexes with re._parser), no earlier-ordered lexer rule matches a prefix of a printed literal, the token conversions are the inverse of the formatter and the formatter is lossless; violations come with the shortest witness literal. C01.2: identifier regex inclusion and the qubit-reference template. C01.3: information-flow necessity -- the printer reads every IR field that has a textual representation. C01.5: IR-valued holes are printed through the value printer. Does not decide equality of the re-parsed circuit for every program.")
 PENDING.pop("C01", None)
+
+_p("C02", "other",
+   "Static clauses of 'the parser accepts exactly the Jaqal grammar, layout-insensitively'. C02.1: the productions are extracted from the sly @_() decorators (always-raising actions and the experimental branch tokens removed) and the token-level language is compared with a reference Jaqal grammar for ALL token strings up to length 8 (quick) / 10 (thorough) by exhaustive bounded enumeration; the shortest string in the symmetric difference is reported. C02.2: header/body typestate decided on the CFGs of the top_statement actions. C02.3: every value-bearing RHS symbol of every production flows into the action's result (no statement dropped). C02.4: exact regular-language conditions on the comment/whitespace tokens (line comment has no newline, block comment ends at the first `*/`, only blanks are ignored). C02.5: the error handler is total for token=None. Does not decide that the S-expression equals the grammar's tree for every text, nor the column arithmetic.")
+PENDING.pop("C02", None)
